@@ -10,7 +10,8 @@
 (* recorded numbers.                                                         *)
 EXTENDS Channel, Json
 CONSTANT CapSat
-VARIABLE l
+VARIABLES l,
+          ctx     \* per-trace configuration from the Reset line: channel type and both dust limits
 
 Trace == ndJsonDeserialize("trace.ndjson")
 
@@ -77,6 +78,43 @@ ExactConservation == Good => \A p \in Party : ExactAll(Last.st[p]) /\ (Last.sher
 OraclesHold == Good => /\ Last.txeq # 0
                        /\ \A p \in Party : Last.sigok[p] # 0
 
+-----------------------------------------------------------------------------
+(* Transaction layer (C01: "mis-counts a dust HTLC in the fee"): which HTLCs  *)
+(* have an output on a commitment and what the commitment fee must be, from   *)
+(* BOLT-3 as lnd implements it (HtlcIsDust, CommitWeight, HtlcTimeoutFee,     *)
+(* HtlcSuccessFee).  The weights are written down here, not taken from the    *)
+(* code under test; the dust limits are fixture configuration.                *)
+TypeTable ==
+  [legacy       |-> [cw |-> 724,  tw |-> 663, sw |-> 703, anch |-> 0],
+   tweakless    |-> [cw |-> 724,  tw |-> 663, sw |-> 703, anch |-> 0],
+   anchors      |-> [cw |-> 1124, tw |-> 666, sw |-> 706, anch |-> 660],
+   zerofee      |-> [cw |-> 1124, tw |-> 0,   sw |-> 0,   anch |-> 660],
+   lease        |-> [cw |-> 1124, tw |-> 0,   sw |-> 0,   anch |-> 660],
+   taproot      |-> [cw |-> 968,  tw |-> 0,   sw |-> 0,   anch |-> 660],
+   taprootfinal |-> [cw |-> 968,  tw |-> 0,   sw |-> 0,   anch |-> 660]]
+TT == TypeTable[ctx.type]
+\* fee of the second-level tx that spends an HTLC: on the owner's own commitment an offered HTLC
+\* times out and a received one succeeds; on the counterparty's commitment it is the reverse
+SecondFee(rate, offeredByOwner) == (rate * (IF offeredByOwner THEN TT.tw ELSE TT.sw)) \div 1000
+NonDust(amtMsat, rate, offeredByOwner, limit) == (amtMsat \div 1000) - SecondFee(rate, offeredByOwner) >= limit
+\* j: recorded commitment held by p; own = TRUE for p's local chain (owner p), FALSE for the remote chain
+CountSeq(s, P(_)) == LET F[i \in 0..Len(s)] == IF i = 0 THEN 0 ELSE F[i-1] + (IF P(s[i]) THEN 1 ELSE 0) IN F[Len(s)]
+NHtlcOutputs(j, p, own) ==
+  LET owner == IF own THEN p ELSE Other(p)
+      limit == ctx.dust[owner]
+  IN  \* j.outs are offered by p: offered-by-owner iff own
+      CountSeq(j.outs, LAMBDA x : NonDust(x[2], j.fee, own, limit))
+    + CountSeq(j.ins,  LAMBDA x : NonDust(x[2], j.fee, ~own, limit))
+ExpectFee(j, p, own) == (j.fee * (TT.cw + 172 * NHtlcOutputs(j, p, own))) \div 1000
+TxC(j, p, own) == (j.h = 0) \/ (/\ j.nhtlc = NHtlcOutputs(j, p, own)
+                                /\ j.anch = TT.anch
+                                /\ (j.feesat = ExpectFee(j, p, own)
+                                    \* an opener that cannot afford the fee pays what it has
+                                    \/ (j.feesat < ExpectFee(j, p, own) /\ (IF p = opener THEN j.obm ELSE j.tbm) = 0)))
+TxAll(pp, p) == /\ \A i \in 1..Len(pp.LC) : TxC(pp.LC[i], p, TRUE)
+                /\ \A i \in 1..Len(pp.RC) : TxC(pp.RC[i], p, FALSE)
+ConformTxLayer == Good => \A p \in Party : TxAll(Last.st[p], p) /\ (Last.sherr = "" => TxAll(Last.sh[p], p))
+
 \* C06 part B: the secret that left with revoke_and_ack is the one the model releases, and the
 \* local commitment that is durable at that moment is newer
 LastRev(p) == LET n == net[p] IN n[Len(n)]
@@ -84,7 +122,7 @@ ReleaseRule == (Good /\ Last.a = "Revoke") =>
                   /\ Last.relh = LastRev(Last.p).h
                   /\ Last.relh < Last.sh[Last.p].LC[1].h
 
-TInit == Init /\ opener = "A" /\ l = 1
+TInit == Init /\ opener = "A" /\ l = 1 /\ ctx = [type |-> "tweakless", dust |-> [A |-> 0, B |-> 0]]
 
 Is(a) == l <= Len(Trace) /\ Trace[l].a = a /\ l' = l + 1
 P == Trace[l].p
@@ -105,12 +143,13 @@ Reset ==
   /\ nfees' = 0
   /\ opener' = Trace[l].opener
   /\ bad' = "none"
+  /\ ctx' = [type |-> Trace[l].type, dust |-> [A |-> Trace[l].dust.A, B |-> Trace[l].dust.B]]
 
 \* a constraint rejection of AddHTLC (reserve, fee buffer, max in flight) is not judged: the
 \* state must be unchanged, and the executor ends the behaviour there
 AddRejected == Is("AddRejected") /\ UNCHANGED vars
 
-TNext ==
+TStep ==
   \/ Is("Add") /\ Add(P, Trace[l].x)
   \/ Is("Resolve") /\ Resolve(P, K, Trace[l].x)
   \/ Is("Sign") /\ Sign(P)
@@ -125,8 +164,9 @@ TNext ==
   \/ Is("UpdateFee") /\ UpdateFee(P, Trace[l].x)
   \/ Is("RecvFee") /\ RecvFee(P)
   \/ AddRejected
-  \/ Reset
-  \/ (l = Len(Trace) + 1 /\ UNCHANGED <<vars, l>>)
+TNext == \/ TStep /\ UNCHANGED ctx
+         \/ Reset
+         \/ (l = Len(Trace) + 1 /\ UNCHANGED <<vars, l, ctx>>)
 
-TSpec == TInit /\ [][TNext]_<<vars, l>>
+TSpec == TInit /\ [][TNext]_<<vars, l, ctx>>
 =============================================================================
